@@ -74,13 +74,13 @@ impl Check for C07 {
     fn phases(&self, tier: Tier, b: f64) -> Vec<Phase> {
         let q = tier == Tier::Quick;
         vec![
-            Phase { name: "valid values of every type in non-canonical encodings", cases: scale(if q { 20000 } else { 600000 }, b), exhaustive: false },
-            Phase { name: "structurally mutated valid values (those still accepted)", cases: scale(if q { 30000 } else { 800000 }, b), exhaustive: false },
-            Phase { name: "byte-mutated corpus and generated messages", cases: scale(if q { 30000 } else { 1500000 }, b), exhaustive: false },
+            Phase { name: "valid values of every type in non-canonical encodings", cases: scale(if q { 60000 } else { 600000 }, b), exhaustive: false },
+            Phase { name: "structurally mutated valid values (those still accepted)", cases: scale(if q { 90000 } else { 800000 }, b), exhaustive: false },
+            Phase { name: "byte-mutated corpus and generated messages", cases: scale(if q { 90000 } else { 1500000 }, b), exhaustive: false },
             Phase { name: "every byte string of length <= 2 (quick) / <= 3 (thorough) at every entry point", cases: if q { 65536 + 256 + 1 } else { 16777216 + 65536 + 256 + 1 }, exhaustive: true },
             Phase { name: "dedicated non-canonical families (bignum tag forms, 4-element recipients with empty list, 7:[[sig]], key_ops orders, float widths, timestamps)", cases: 2000, exhaustive: true },
             Phase { name: "test-suite vectors at every entry point", cases: corpus().len() as u64, exhaustive: true },
-            Phase { name: "counter-signature chains of depth 1-14, each level bare / [sig] / [sig, sig], through protected or unprotected headers", cases: scale(if q { 3000 } else { 60000 }, b), exhaustive: false },
+            Phase { name: "counter-signature chains of depth 1-14, each level bare / [sig] / [sig, sig], through protected or unprotected headers", cases: scale(if q { 9000 } else { 60000 }, b), exhaustive: false },
         ]
     }
     fn run_case(&self, ctx: &mut Ctx, phase: usize, idx: u64) {
